@@ -321,6 +321,70 @@ def zero_chain(exe, root, seed, stats):
         return [('(%s) [zero-chain] %s/new not restored but fix exits 0' % (cfg, d), hist)]
     return None
 
+def lost_parity_chain(exe, root, seed, stats):
+    """more failures than parity levels: a file rewritten in place (pending blocks with the hash of the PREVIOUS version as
+    past hash) in stripes where the other disks hold nothing, the sync killed (or its range not reaching those stripes),
+    then the file AND every parity file are lost.  fix recreates the parity files; whatever it reads from the space it has
+    just created is not parity.  It must restore the recorded version or fail, never leave other bytes as recovered"""
+    rng = e2e.Rng(seed)
+    a = e2e.Arr(root, exe, ndisks=2 + rng.below(2), nparity=2 + rng.below(2), ncontent=1, hashsize=rng.choice([16, 16, 8]), splits=rng.choice([1, 1, 2]))
+    s = sim.Sim(a, rng.fork(), weird_names=False)
+    bs = a.block
+    lead = 1 + rng.below(2)
+    for d in a.disks:
+        a.write(d, 'A', rng.bytes(bs * lead - rng.below(50)), s.tick())
+    nb = 2 + rng.below(4)
+    size = nb * bs - rng.below(2) * (1 + rng.below(100))
+    V0, V1 = rng.bytes(size), rng.bytes(size)
+    d = rng.choice(a.disks)
+    a.write(d, 'big', V0, s.tick())
+    if s.sync().rc != 0:
+        a.destroy(); return None
+    how = rng.choice(['kill', 'range', 'new-kill'])
+    if how == 'new-kill':
+        # a brand-new file instead: pending blocks with the ZERO past hash
+        os.unlink(a.path(d, 'big')); s.log('%s/big removed' % d); s.sync()
+        a.write(d, 'big', V1, s.tick()); s.log('%s/big created (V1)' % d)
+        s.run('sync', '--test-kill-after-sync')
+    else:
+        with open(a.path(d, 'big'), 'r+b') as f: f.write(V1)
+        t = s.tick(); os.utime(a.path(d, 'big'), ns=(t, t)); s.log('%s/big rewritten in place (V1)' % d)
+        if how == 'kill': s.run('sync', '--test-kill-after-sync')
+        else: s.run('sync', '-B', str(lead))
+    if not os.path.exists(a.contents[0]):
+        a.destroy(); return None
+    dec = fx.decode(a)
+    rec = [f for f in dec.files if f['sub'] == b'big' and dec.maps[f['mapping']][0].decode() == d]
+    if not dec.ok or not rec or rec[0]['size'] != size:
+        a.destroy(); return None
+    kinds = ''.join(sorted(set(b[1] for b in rec[0]['blocks'])))
+    stats['lost_parity_chain'] = stats.get('lost_parity_chain', 0) + 1
+    stats['lost_parity_kinds'] = stats.get('lost_parity_kinds', {}); stats['lost_parity_kinds'][how + ':' + kinds] = stats['lost_parity_kinds'].get(how + ':' + kinds, 0) + 1
+    cfg = 'lost-parity-chain ndisks=%d nparity=%d hashsize=%d splits=%d blocks=%d how=%s seed=%d' % (a.ndisks, a.nparity, a.hashsize, a.splits, nb, how, seed)
+    p = a.path(d, 'big')
+    os.unlink(p); s.log('%s/big lost' % d)
+    keep = rng.below(3) == 0      # sometimes the first parity file survives truncated to its leading stripes only
+    for l in range(a.nparity):
+        for k, pf in enumerate(a.parity_files(l)):
+            if not os.path.exists(pf): continue
+            if keep and l == 0 and k == 0:
+                with open(pf, 'r+b') as f: f.truncate(min(os.path.getsize(pf), lead * bs))
+            else:
+                os.unlink(pf)
+    s.log('all parity files lost' + (' (the first one cut to its first %d blocks)' % lead if keep else ''))
+    r = a.cmd('fix')
+    got = open(p, 'rb').read() if os.path.isfile(p) else None
+    rec_tag = any(t.startswith('status:recovered:%s:big' % d) for t in r.tags)
+    hist = '\n'.join(s.history)
+    a.destroy()
+    if got is not None and got != V1:
+        which = 'V0 (the previous version)' if got == V0 else ('zeros' if not any(got) else 'other bytes')
+        return [('(%s) [lost-parity-chain] fix leaves %s/big with %s instead of the recorded version, exit %d, reported recovered=%s (recorded states %s)' % (cfg, d, which, r.rc, rec_tag, kinds),
+                 hist + '\n' + '\n'.join(t for t in r.tags if t.split(':')[0] in ('entry', 'hash_unknown', 'fixed', 'status', 'summary', 'unrecoverable'))[:3000])]
+    if got is None and r.rc == 0:
+        return [('(%s) [lost-parity-chain] %s/big not restored but fix exits 0' % (cfg, d), hist)]
+    return None
+
 def directed_known(exe, root, which):
     """the two hand-derived counter-histories (DESIGN section 7), replayed on the binary.
     Returns (violated: bool, text)"""
@@ -379,7 +443,7 @@ def main(tier, seed):
     def job2(i):
         return rep_chain(exe, os.path.join(vlib.scratch(), 'rc%d' % i), seed * 100000 + 35000 + i, stats)
     with ThreadPoolExecutor(vlib.NCPU) as ex:
-        res = list(ex.map(job, range(n))) + list(ex.map(job2, range(nrc))) + list(ex.map(lambda i: zero_chain(exe, os.path.join(vlib.scratch(), 'zc%d' % i), seed * 100000 + 36000 + i, stats), range(nrc)))
+        res = list(ex.map(job, range(n))) + list(ex.map(job2, range(nrc))) + list(ex.map(lambda i: zero_chain(exe, os.path.join(vlib.scratch(), 'zc%d' % i), seed * 100000 + 36000 + i, stats), range(nrc))) + list(ex.map(lambda i: lost_parity_chain(exe, os.path.join(vlib.scratch(), 'lp%d' % i), seed * 100000 + 37000 + i, stats), range(nrc)))
     k = 0
     for r in res:
         if r:
@@ -391,7 +455,7 @@ def main(tier, seed):
             chk.violation('C05 static obligation failed: ' + o[0], o[0] + '\n' + o[2], False, 'static')
     chk.evaluations = stats['fixes']
     chk.distinct = stats['fixes']
-    chk.rule = ('%d seeded arrays with histories of complete/partial/-S -B/killed/pre-hash syncs, syncs during which a file is moved away or appended (skipped stripes), copy-detected files; then damage on any number of devices (deleted, truncated files, silently changed blocks that carry a recorded hash, lost disks, lost or partly stale parity), an unknown file added; fix with -d / -f dir / -m / no filter; oracle: every selected recorded file has the recorded bytes or is reported unrecoverable with failing exit and summary; nothing reported recovered with other bytes; unselected and unknown files byte- and mtime-identical; plus %d rep-chain histories (a synced file becomes REP by copy detection or pre-hash while a partial sync does not reach it, is rewritten again with another partial sync, then lost: fix must return the recorded version or fail) and as many zero-chain histories (a new file synced into unused parity by a sync killed before the content save, rewritten, its stripes skipped by a sync during which it changes, then lost)' % (n, nrc))
+    chk.rule = ('%d seeded arrays with histories of complete/partial/-S -B/killed/pre-hash syncs, syncs during which a file is moved away or appended (skipped stripes), copy-detected files; then damage on any number of devices (deleted, truncated files, silently changed blocks that carry a recorded hash, lost disks, lost or partly stale parity), an unknown file added; fix with -d / -f dir / -m / no filter; oracle: every selected recorded file has the recorded bytes or is reported unrecoverable with failing exit and summary; nothing reported recovered with other bytes; unselected and unknown files byte- and mtime-identical; plus %d rep-chain histories (a synced file becomes REP by copy detection or pre-hash while a partial sync does not reach it, is rewritten again with another partial sync, then lost: fix must return the recorded version or fail) and as many zero-chain histories (a new file synced into unused parity by a sync killed before the content save, rewritten, its stripes skipped by a sync during which it changes, then lost) and as many lost-parity-chain histories (a file rewritten in place or created, the sync killed or not reaching it, then the file and EVERY parity file lost: fix recreates the parity and must not take what it has just created for parity)' % (n, nrc))
     chk.samples = [dict(stats)]
     chk.corr['E2E-FIX'] = dict(stats)
     chk.finish()
